@@ -3,7 +3,7 @@ package main
 // C13 (group B): the importers revolut2, revolut, com.wise, ch.swissquote, us.interactivebrokers.
 //
 // op C13.<importer>; input = "<flags> | <hex of the statement file> | <items>"
-//   flags: imp=<name> kind=wf|mal:<what> acct=<x+hex|-> fee= trading= div= tax= int= (account flags,
+//   flags: imp=<name> kind=wf|mal:<what> note=<tag|-> acct=<x+hex|-> fee= trading= div= tax= int= (account flags,
 //          "-" where the command has none) nl=0|1 (free text with newlines) q=0|1 (free text may
 //          contain double quotes) facts=<facts|-> asserts=<assertions|->
 //   items: the records encoding/csv delivers with exactly the importer's reader configuration
@@ -36,7 +36,7 @@ import (
 	"time"
 )
 
-var c13bImporters = []string{"revolut2", "revolut"}
+var c13bImporters = []string{"revolut2", "revolut", "wise"}
 
 var c13bUse = map[string]string{"revolut2": "revolut2", "revolut": "revolut", "wise": "com.wise",
 	"swissquote": "ch.swissquote", "interactivebrokers": "us.interactivebrokers"}
@@ -110,6 +110,7 @@ type c13bFact struct {
 
 type c13bCase struct {
 	imp, kind  string
+	note       string            // a tag naming a special kind of row the statement contains ("-" if none)
 	flags      map[string]string // present account flags
 	nl, quotes bool
 	facts      []c13bFact
@@ -159,7 +160,11 @@ func c13bDecFacts(v string) []c13bFact {
 
 func (c c13bCase) enc() string {
 	var b strings.Builder
-	fmt.Fprintf(&b, "imp=%s kind=%s", c.imp, c.kind)
+	note := c.note
+	if note == "" {
+		note = "-"
+	}
+	fmt.Fprintf(&b, "imp=%s kind=%s note=%s", c.imp, c.kind, note)
 	for _, k := range c13bFlagNames {
 		v, ok := c.flags[k]
 		fmt.Fprintf(&b, " %s=%s", k, c13aHexOrDash(v, ok))
@@ -779,10 +784,181 @@ func c13bGenRevolut(r *rng, mal string) c13bCase {
 	return c
 }
 
+// ---------------------------------------------------------------- wise
+
+func c13bGenWise(r *rng, mal string) c13bCase {
+	c := c13bCase{imp: "wise", flags: map[string]string{
+		"acct":    pick(r, []string{"Assets:Accounts:Wise", "Assets:Wise", "Assets:Bank:Wise:Multi", "Assets:W"}),
+		"fee":     pick(r, []string{"Expenses:Fees", "Expenses:Bank:Fees", "Expenses:F"}),
+		"trading": pick(r, []string{"Expenses:Trading", "Equity:Trading", "Income:FX"})}}
+	n := c13aRowCount(r)
+	if mal != "" && n == 0 {
+		n = 3
+	}
+	quotesOK := r.chance(15)
+	c.quotes = quotesOK
+	// an incoming payment in another currency (money added from a bank account in CHF to the EUR
+	// balance): see findings/C13-wise-incoming-conversion.md; kept to a few statements
+	incomingConv := mal == "" && r.chance(8)
+	if incomingConv && n > 0 {
+		c.note = "incoming-conversion"
+	}
+	curs := []string{"CHF", "EUR", "USD", "NZD", "AUD", "GBP"}
+	dts := c13aNewDates(r)
+	bad := -1
+	if mal != "" && mal != "acct" {
+		bad = r.intn(n)
+	}
+	var b strings.Builder
+	b.WriteString("ID,Status,Direction,\"Created on\",\"Finished on\",\"Source fee amount\",\"Source fee currency\",\"Target fee amount\",\"Target fee currency\",\"Source name\",\"Source amount (after fees)\",\"Source currency\",\"Target name\",\"Target amount (after fees)\",\"Target currency\",\"Exchange rate\",Reference,Batch\n")
+	type line struct {
+		fields []string
+		facts  []c13bFact
+	}
+	lines := make([]line, n)
+	for i := range lines {
+		t := dts.next()
+		day := c13aISO(t)
+		created := day + fmt.Sprintf(" %02d:%02d:%02d", r.intn(24), r.intn(60), r.intn(60))
+		finished := c13aISO(t.AddDate(0, 0, r.intn(3))) + fmt.Sprintf(" %02d:%02d:%02d", r.intn(24), r.intn(60), r.intn(60))
+		src, tgt := c13aGenAmount(r, false), c13aGenAmount(r, false)
+		if r.chance(4) {
+			src = c13aExotic(r)
+		}
+		scur := pick(r, curs)
+		tcur := scur
+		owner := pick(r, []string{"Rocky Balboa", "R. Balboa", "Jörg Müller"})
+		other := c13aText(r, true, quotesOK)
+		fee := c13aAmount{ip: "0", fp: "00"}
+		if r.chance(35) {
+			fee = c13aAmount{ip: fmt.Sprint(r.intn(60)), fp: fmt.Sprintf("%02d", r.intn(100))}
+		}
+		feeAmount, feeCur := fee.text(), scur
+		switch r.intn(10) {
+		case 0:
+			feeAmount, feeCur, fee = "", "", c13aAmount{ip: "0"}
+		case 1:
+			feeAmount, fee = pick(r, []string{"0", "0.0", "0.000"}), c13aAmount{ip: "0"}
+		}
+		tfeeAmount, tfeeCur := "", ""
+		tfee := c13aAmount{ip: "0"}
+		kind := r.intn(12)
+		if incomingConv && i < 2 {
+			kind = 100
+		}
+		var l line
+		fact := func(terms ...c13bTerm) { l.facts = append(l.facts, c13bFact{day, terms}) }
+		id, status, dir := "", "COMPLETED", ""
+		sname, tname := owner, other
+		switch {
+		case kind <= 3: // card payment or transfer out, same currency
+			id, dir = pick(r, []string{"CARD_TRANSACTION-", "TRANSFER-"})+fmt.Sprint(r.intn(1000000)), "OUT"
+			tgt = src
+			fact(c13bTerm{scur, src.value(true)}, c13bTerm{feeCur, fee.value(true)})
+		case kind <= 5: // card payment abroad: converted, then paid
+			id, dir = "CARD_TRANSACTION-"+fmt.Sprint(r.intn(1000000)), "OUT"
+			for tcur == scur {
+				tcur = pick(r, curs)
+			}
+			if r.chance(20) {
+				tfee = c13aAmount{ip: fmt.Sprint(r.intn(3)), fp: fmt.Sprintf("%02d", 1+r.intn(99))}
+				tfeeAmount, tfeeCur = tfee.text(), tcur
+			}
+			fact(c13bTerm{scur, src.value(true)}, c13bTerm{feeCur, fee.value(true)}, c13bTerm{tcur, tfee.value(true)}, c13bTerm{tcur, tgt.value(false)})
+			fact(c13bTerm{tcur, tgt.value(true)})
+		case kind <= 7: // money received, same currency
+			id, dir = "TRANSFER-"+fmt.Sprint(r.intn(1000000)), "IN"
+			tgt = src
+			sname, tname = other, owner
+			fact(c13bTerm{scur, src.value(false)}, c13bTerm{feeCur, fee.value(true)})
+		case kind <= 9: // conversion between two balances
+			id, dir = "BALANCE_TRANSACTION-"+fmt.Sprint(r.intn(1000000)), "NEUTRAL"
+			for tcur == scur {
+				tcur = pick(r, curs)
+			}
+			tname = owner
+			fact(c13bTerm{scur, src.value(true)}, c13bTerm{feeCur, fee.value(true)}, c13bTerm{tcur, tgt.value(false)})
+		case kind == 10: // moved to a jar of the same currency: nothing leaves the account, no fee
+			id, dir = "BALANCE_TRANSACTION-"+fmt.Sprint(r.intn(1000000)), "NEUTRAL"
+			tgt = src
+			tname = owner
+			feeAmount, fee = pick(r, []string{"", "0.00", "0"}), c13aAmount{ip: "0"}
+			if feeAmount == "" {
+				feeCur = ""
+			}
+		case kind == 11:
+			id, dir, status = "CARD_TRANSACTION-"+fmt.Sprint(r.intn(1000000)), "OUT", "CANCELLED"
+			tgt = src
+			if r.chance(50) {
+				feeAmount, feeCur = "", ""
+			}
+		case kind == 100: // money added in another currency: the account receives the target amount
+			id, dir = "TRANSFER-"+fmt.Sprint(r.intn(1000000)), "IN"
+			for tcur == scur {
+				tcur = pick(r, curs)
+			}
+			sname, tname = owner, owner
+			fact(c13bTerm{scur, src.value(true)}, c13bTerm{feeCur, fee.value(true)}, c13bTerm{tcur, tgt.value(false)})
+			fact(c13bTerm{scur, src.value(false)})
+		}
+		if r.chance(50) {
+			id = strings.ReplaceAll(id, "_", "-")
+		}
+		l.fields = []string{id, status, dir, created, finished, feeAmount, feeCur, tfeeAmount, tfeeCur, sname, src.written(), scur, tname,
+			tgt.written(), tcur, pick(r, []string{"1.0", "1.75685000", "0.91", ""}), pick(r, []string{"", "", "Invoice 42", "ref; x"}), ""}
+		lines[i] = l
+	}
+	if r.chance(50) {
+		for i, j := 0, len(lines)-1; i < j; i, j = i+1, j-1 {
+			lines[i], lines[j] = lines[j], lines[i]
+		}
+	}
+	for i, l := range lines {
+		fields := l.fields
+		if i == bad {
+			if fields[1] == "CANCELLED" {
+				fields[1] = "COMPLETED"
+			}
+			switch mal {
+			case "date":
+				fields[3] = pick(r, []string{"2020-02-30 10:00:00", "2021-02-29 00:00:00", "2020-13-01 10:00:00", "2020-00-10 10:00:00"})
+			case "datefmt":
+				fields[3] = pick(r, []string{"02.01.2020 10:00:00", "2020-1-1", "2020/01/01 10:00", "", "20200101"})
+			case "amount":
+				fields[pick(r, []int{10, 13})] = pick(r, append(c13aBadAmounts, "", "1'234.50"))
+			case "cur":
+				switch r.intn(3) {
+				case 0:
+					fields[2] = pick(r, []string{"SIDEWAYS", "", "out"})
+				default:
+					fields[pick(r, []int{11, 14})] = pick(r, c13aBadCurs)
+				}
+			case "cols":
+				if r.chance(50) {
+					fields = fields[:17]
+				} else {
+					fields = append(fields, "extra")
+				}
+			}
+		}
+		for k, f := range fields {
+			if k > 0 {
+				b.WriteByte(',')
+			}
+			b.WriteString(c13aCsvField(r, f, ',', (k == 0 || k == 3 || k == 4 || k == 9 || k == 12) && r.chance(70)))
+		}
+		b.WriteString(pick(r, []string{"\n", "\n", "\r\n"}))
+		c.nl = c.nl || c13aHasNewline(fields...)
+		c.facts = append(c.facts, l.facts...)
+	}
+	c.file = []byte(b.String())
+	return c
+}
+
 // ---------------------------------------------------------------- generator entry
 
 var c13bGenFuncs = map[string]func(r *rng, mal string) c13bCase{
-	"revolut2": c13bGenRevolut2, "revolut": c13bGenRevolut,
+	"revolut2": c13bGenRevolut2, "revolut": c13bGenRevolut, "wise": c13bGenWise,
 }
 
 var c13bMalKinds = []string{"date", "datefmt", "amount", "cols", "cur", "acct"}
